@@ -133,19 +133,6 @@ pub fn run(sim: &Sim, prop: &str, tier: Tier) -> Outcome {
         }
         cfg_b.push(c);
     }
-    // the last handler of each node is always a capture-all one: it observes every packet
-    // the node receives, which also defines quiescence at the API level (a receiver may hold
-    // received packets in an internal buffer, so empty wires alone do not mean "delivered")
-    {
-        let c = HandlerCfg { capture_all: true, acks: false, long_reply: false };
-        let i = cfg_b.len();
-        sh_b.borrow_mut().logs.push(Vec::new());
-        let h = mk_handler(sim, "B", i, &c, b, a, &sh_b);
-        if !matches!(sut(|| nb.add_packet_handler(h, true)), Ok(Ok(_))) {
-            return Outcome::Foreign("C17.unique", "add_packet_handler failed".into());
-        }
-        cfg_b.push(c);
-    }
     let n_a = if acking { 1 + sim.draw(3) as usize } else { sim.draw(2) as usize };
     for i in 0..n_a {
         let c = HandlerCfg {
@@ -156,17 +143,6 @@ pub fn run(sim: &Sim, prop: &str, tier: Tier) -> Outcome {
         sh_a.borrow_mut().logs.push(Vec::new());
         let h = mk_handler(sim, "A", i, &c, a, b, &sh_a);
         if !matches!(sut(|| na.add_packet_handler(h, c.capture_all)), Ok(Ok(_))) {
-            return Outcome::Foreign("C17.unique", "add_packet_handler failed".into());
-        }
-        cfg_a.push(c);
-    }
-
-    {
-        let c = HandlerCfg { capture_all: true, acks: false, long_reply: false };
-        let i = cfg_a.len();
-        sh_a.borrow_mut().logs.push(Vec::new());
-        let h = mk_handler(sim, "A", i, &c, a, b, &sh_a);
-        if !matches!(sut(|| na.add_packet_handler(h, true)), Ok(Ok(_))) {
             return Outcome::Foreign("C17.unique", "add_packet_handler failed".into());
         }
         cfg_a.push(c);
@@ -373,21 +349,16 @@ pub fn run(sim: &Sim, prop: &str, tier: Tier) -> Outcome {
     // (a receiver may spread a long packet over several polls: frames count too)
     let frames_total: usize = planned.iter().map(|(_, p)| if p.data.len() <= 8 { 1 } else { (p.data.len() - 1) / 7 + 1 }).sum();
     let budget = planned.len() + planned.len() * cfg_b.len() * 8 + frames_total + 4;
-    // quiescence: the capture-all observers have seen everything that was put on the link
-    // towards them; then two more rounds in which nothing further may show up
-    let obs_b = cfg_b.len() - 1;
-    let obs_a = cfg_a.len() - 1;
+    // Quiescence at the API level: once both wires are empty, a receiver can hold at most
+    // as many received-but-undelivered packets (in an internal buffer) as were ever sent to
+    // it, and every tick hands out at most one. So: tick both nodes until (packets sent +
+    // replies sent + 2) consecutive rounds passed in which the wires stayed empty and no
+    // handler observed anything and no reply was produced.
     let mut rounds = 0;
-    let mut settled = 0;
-    while settled < 2 {
-        let want_b = sent;
-        let want_a = sh_b.borrow().acks.iter().filter(|(_, _, ok)| *ok).count();
-        let done = sh_b.borrow().logs[obs_b].len() >= want_b && sh_a.borrow().logs[obs_a].len() >= want_a;
-        if done {
-            settled += 1;
-        } else {
-            settled = 0;
-        }
+    let mut calm = 0;
+    loop {
+        let logs_before: usize = sh_b.borrow().logs.iter().map(|l| l.len()).sum::<usize>() + sh_a.borrow().logs.iter().map(|l| l.len()).sum::<usize>();
+        let acks_before = sh_b.borrow().acks.len();
         if let Some(o) = do_tick("B", &mut nb, sent) {
             return o;
         }
@@ -395,8 +366,29 @@ pub fn run(sim: &Sim, prop: &str, tier: Tier) -> Outcome {
             return o;
         }
         rounds += 1;
-        if rounds > budget {
-            break; // the completeness check below names what is missing
+        let logs_after: usize = sh_b.borrow().logs.iter().map(|l| l.len()).sum::<usize>() + sh_a.borrow().logs.iter().map(|l| l.len()).sum::<usize>();
+        let acks_after = sh_b.borrow().acks.len();
+        let empty = ab.borrow().in_flight() == 0 && ba.borrow().in_flight() == 0;
+        if empty && logs_after == logs_before && acks_after == acks_before {
+            calm += 1;
+        } else {
+            calm = 0;
+        }
+        if calm >= sent + acks_after + 2 {
+            break;
+        }
+        if rounds > 2 * budget + sent + acks_after + 8 {
+            return fail(
+                prop,
+                "C01.live",
+                format!(
+                    "no quiescence {} rounds of ticks after the last send although all data has arrived ({} / {} units still on the wires)",
+                    rounds,
+                    ab.borrow().in_flight(),
+                    ba.borrow().in_flight()
+                ),
+                sig("no-quiescence"),
+            );
         }
     }
     if let Some(o) = check(sent, true) {
